@@ -3,8 +3,10 @@ package cf
 import (
 	"encoding/json"
 	"fmt"
+	"strings"
 
 	"github.com/nyaruka/goflow/assets"
+	"github.com/nyaruka/goflow/envs"
 	"github.com/nyaruka/goflow/flows"
 	"github.com/nyaruka/goflow/flows/resumes"
 	"verif/mc"
@@ -237,7 +239,9 @@ func RefreshRoots() []EngineRoot {
 }
 
 // Histories are the resume histories explored from every root.
-var Histories = [][]string{{}, {"msg:Dog"}, {"refresh:Dog"}}
+// ("live|" = the session object is kept; otherwise it is marshalled and read back before the resume;
+// env:far = the resume carries an environment in a timezone where the calendar day differs)
+var Histories = [][]string{{}, {"msg:Dog"}, {"refresh:Dog"}, {"env:far:Dog"}, {"live|env:far:Dog"}}
 
 // SprintObs is what one engine call exposes to the contact-family oracles.
 type SprintObs struct {
@@ -246,8 +250,10 @@ type SprintObs struct {
 	After      []byte // contact JSON after
 	Events     [][]byte
 	EventTypes []string
-	InputTime  string // time of the received message, "" if none
-	Session    flows.Session
+	InputTime  string           // time of the received message, "" if none
+	Session    flows.Session    // the live object: it moves on when the history continues without a restart
+	Contact    *flows.Contact   // the session's contact at the time of the observation (a clone)
+	Env        envs.Environment // the session's environment at that time
 	Err        error
 	Panic      string
 	Status     flows.SessionStatus
@@ -262,6 +268,8 @@ func Execute(r *EngineRoot, hist []string) ([]*SprintObs, error) {
 		o := &SprintObs{Call: call, Before: before, InputTime: inputTime, Session: x.Session, Err: x.Err}
 		if x.Err == nil {
 			o.After, _ = json.Marshal(x.Session.Contact())
+			o.Contact = x.Session.Contact().Clone()
+			o.Env = x.Session.Environment()
 			o.Status = x.Session.Status()
 			if x.Sprint != nil {
 				for _, e := range x.Sprint.Events() {
@@ -296,9 +304,13 @@ func Execute(r *EngineRoot, hist []string) ([]*SprintObs, error) {
 			if x.Err != nil || x.Session.Status() != flows.SessionStatusWaiting {
 				return
 			}
-			if err := x.Restart(); err != nil {
-				herr = err
-				return
+			live := strings.HasPrefix(ev, "live|")
+			ev = strings.TrimPrefix(ev, "live|")
+			if !live {
+				if err := x.Restart(); err != nil {
+					herr = err
+					return
+				}
 			}
 			before, _ := json.Marshal(x.Session.Contact())
 			if err := x.Apply(world.Step{Ev: ev}); err != nil {
@@ -310,7 +322,11 @@ func Execute(r *EngineRoot, hist []string) ([]*SprintObs, error) {
 				tb, _ := json.Marshal(mr.ResumedOn())
 				json.Unmarshal(tb, &it)
 			}
-			observe(ev, x, before, it)
+			call := ev
+			if live {
+				call = "live-" + ev
+			}
+			observe(call, x, before, it)
 		}
 	})
 	if p != "" {
